@@ -87,7 +87,13 @@ def lines_for(spec, rep, want=("geom", "pic", "scale", "layout", "size")):
         if "scale" in want and "domain" not in spec["options"] and len(spec["data"]) > 0:
             # the axis domain is derived from the data, so it covers them: no dot beyond either end of the axis line
             L_ = tl.getInnerDims()[1] if d in ("left", "right") else tl.getInnerDims()[0]
-            if any(not (-1e-6 <= v <= L_ + 1e-6) for v in dots):
+            # … up to the floating-point resolution of the domain values themselves (a domain end that `nice` computes as floor(x / step) * step
+            # may land one ulp inside x: 4e-5 px for data 1e-3 apart at 1e6), carried through the affine map
+            dm = tl.options["scale"].domain()
+            dv = [float(x) if isinstance(x, (int, float)) else float(TG.to_ms(x)) for x in dm]
+            span_ = abs(dv[1] - dv[0])
+            tol_ = 1e-6 + (L_ * 4 * 2.0 ** -52 * max(abs(dv[0]), abs(dv[1])) / span_ if span_ > 0 else 0)
+            if any(not (-tol_ <= v <= L_ + tol_) for v in dots):
                 rep.prop_fail.append(("a dot lies beyond the end of the axis line although the axis domain is derived from the data (%s)" % backend, {"case": {"kind": "timeline", "spec": spec}}))
         if "geom" in want:
             out.append(("geom|%s|%s|%s|%d|%s|%s|%s|%s" % (d, fr(ro["nodeHeight"]), fr(ro["layerGap"]), c08, node_states(tl), boxes_str(g["boxes"]),
